@@ -555,6 +555,13 @@ func runC07(seed uint64, n int, tier string, outDir string) []*Stats {
 	}
 	cf.AddCases("builder_cases", "bytes * list (Z * Z * bytes) * bytes * bytes * Z * list Z * list Z * bool * Z * bool", "check_builder", bItems)
 
+	// --- the real ChunkBuilder with a non-nil input source map vs BuilderIn.v
+	var biItems []string
+	for i := 0; i < n/4; i++ {
+		biItems = append(biItems, genBuilderInCase(r, st))
+	}
+	cf.AddCases("builderin_cases", "bytes * list (list Z) * list Z * list (Z * Z * bytes) * bytes * bytes * Z * list Z * list Z * bool * Z * bool", "check_builderin", biItems)
+
 	// --- fixed corpus of known findings, then real builds with marker programs
 	glueKnownFindings(st)
 	glueN := n / 25
@@ -1477,4 +1484,106 @@ func genJoinAllCase(r *Rng, st *Stats) (string, string) {
 	}
 	mapItem := fmt.Sprintf("(%s,%d,%d,%s)", CBytes(joined), nsrc, totalNames+1, "["+strings.Join(dl, ";")+"]")
 	return item, mapItem
+}
+
+// ---------------------------------------------------------------------------
+// ChunkBuilder with an input source map (composition)
+
+func genBuilderInCase(r *Rng, st *Stats) string {
+	text := randText(r)
+	lines := strings.Count(text, "\n") + 1
+	tables := sourcemap.GenerateLineOffsetTables(text, int32(lines))
+	names := []string{"", "alpha", "beta", "gamma", "alpha2"}
+	// a random input map, sorted by generated position, over the lines of text
+	var ms []sourcemap.Mapping
+	gl, gc := 0, 0
+	for q := r.Intn(14); q > 0; q-- {
+		if r.Chance(30) {
+			gl += r.Range(1, 2)
+			gc = 0
+		}
+		gc += r.Intn(5)
+		m := sourcemap.Mapping{GeneratedLine: int32(gl), GeneratedColumn: int32(gc), SourceIndex: int32(r.Intn(3)), OriginalLine: int32(r.Intn(30)), OriginalColumn: int32(r.Intn(30))}
+		ms = append(ms, m)
+	}
+	var inNames []string
+	var inNameIDs []int64
+	for q := r.Intn(4); q > 0; q-- {
+		id := r.Intn(len(names))
+		inNames = append(inNames, names[id])
+		inNameIDs = append(inNameIDs, int64(id))
+	}
+	for i := range ms {
+		if len(inNames) > 0 && r.Chance(40) {
+			ms[i].OriginalName = ast.MakeIndex32(uint32(r.Intn(len(inNames))))
+		}
+	}
+	sm := &sourcemap.SourceMap{Mappings: ms, Names: inNames}
+	b := sourcemap.MakeChunkBuilder(sm, tables, false)
+	var locs []int
+	for off := range text {
+		locs = append(locs, off)
+	}
+	locs = append(locs, len(text))
+	var out, pending []byte
+	var evs []string
+	nev := r.Range(0, 10)
+	prevLoc := -1
+	type rec struct{ line, col int }
+	for e := 0; e < nev; e++ {
+		delta := []byte(randOutputChunk(r))
+		if e == 0 && r.Chance(50) {
+			delta = nil
+		}
+		out = append(out, delta...)
+		pending = append(pending, delta...)
+		loc := locs[r.Intn(len(locs))]
+		if r.Chance(15) && prevLoc >= 0 {
+			loc = prevLoc
+		}
+		prevLoc = loc
+		nameID := 0
+		if r.Chance(45) {
+			nameID = r.Range(1, len(names)-1)
+		}
+		b.AddSourceMapping(logger.Loc{Start: int32(loc)}, names[nameID], out)
+		evs = append(evs, fmt.Sprintf("(%d,%d,%s)", loc, nameID, CBytes(pending)))
+		pending = nil
+	}
+	fin := []byte(randOutputChunk(r))
+	out = append(out, fin...)
+	ch := b.GenerateChunk(out)
+	var nameIDs []int64
+	for _, q := range ch.QuotedNames {
+		for id, nm := range names {
+			if string(q) == "\""+nm+"\"" {
+				nameIDs = append(nameIDs, int64(id))
+			}
+		}
+	}
+	// the property's predicate on the real code: every emitted mapping's original
+	// position is the target of some input mapping (composition never invents a position)
+	if dec, ok := decodeMappings(ch.Buffer.Data); ok {
+		for _, a := range dec {
+			found := false
+			for _, m := range ms {
+				if a.hasSrc && int(m.SourceIndex) == a.s && int(m.OriginalLine) == a.ol && int(m.OriginalColumn) == a.c {
+					found = true
+				}
+			}
+			if !found {
+				st.Fail("builder-input-map-invented-position", map[string]interface{}{"scenario": "builder-in", "text": text, "events": evs}, fmt.Sprint(a), "an original position of the input map")
+			}
+		}
+	} else if len(ch.Buffer.Data) > 0 {
+		st.Fail("builder-input-map-undecodable", map[string]interface{}{"scenario": "builder-in", "text": text, "events": evs}, string(ch.Buffer.Data), "a v3 mappings string")
+	}
+	var ml []string
+	for _, m := range ms {
+		ml = append(ml, mappingCoq(m))
+	}
+	es := ch.EndState
+	st.Note("builder-in", text+strings.Join(evs, "")+fmt.Sprint(ms), nev > 1 && len(ms) > 1)
+	return fmt.Sprintf("(%s,[%s],%s,[%s],%s,%s,%s,%s,%s,%s,%d,%s)", CBytes([]byte(text)), strings.Join(ml, ";"), CZList(inNameIDs), strings.Join(evs, ";"), CBytes(fin),
+		CBytes(ch.Buffer.Data), CZ(fnoOf(ch.Buffer.FirstNameOffset)), CZList(nameIDs), stateFields(es), CBool(es.HasOriginalName), ch.FinalGeneratedColumn, CBool(ch.ShouldIgnore))
 }
